@@ -71,6 +71,8 @@ func cTplMsg(id, ver int) []byte {
 		return cOptsMsg(id, a, b)
 	}
 	rec := append(append(cU16(id), cU16(2)...), append(append(cU16(210), cU16(a)...), append(cU16(210), cU16(b)...)...)...)
+	// a second template record in the same set (exporters announce several at once): id + 20000, same shape
+	rec = append(rec, append(append(cU16(id+20000), cU16(2)...), append(append(cU16(210), cU16(3)...), append(cU16(210), cU16(5)...)...)...)...)
 	set := append(append(cU16(0), cU16(4+len(rec))...), rec...)
 	msg := append([]byte{0, 9, 0, 1}, make([]byte, 16)...)
 	return append(msg, set...)
